@@ -123,11 +123,33 @@ def main():
             else: discharged += 1
         discharged += len(table_lemmas)          # TableProofs.vo was produced by this run: every table lemma checked
     if ok and tier == 'thorough':
-        # independent re-check of the compiled cone of the property, and the axioms it relies on
-        rc, chk = lib.sh('cd %s && timeout 1500 coqchk -o -silent -Q . Jawk Jawk.Props.%s 2>&1 | tail -15' % (lib.COQ, prop), timeout=1600)
-        m = re.search(r'\* Axioms:\s*(.*?)\n\s*\n', chk, re.S)
-        cov['coqchk_axioms'] = (m.group(1).strip() if m else 'coqchk did not finish: ' + chk[-200:])
-        if not m or m.group(1).strip() != '<none>': broken.append('coqchk: ' + cov['coqchk_axioms'][:300])
+        # independent re-check of the compiled development (every Props file and everything they depend on) with coqchk, and the
+        # axioms it relies on.  One coqchk run covers all properties; its verdict is cached under the digest of every compiled file
+        # it read, so the next thorough check re-runs it only if some .vo changed (a fresh sandbox pays it once: ~15 min)
+        import hashlib, glob
+        h = hashlib.sha256()
+        vos = sorted(glob.glob(os.path.join(lib.COQ, '*', '*.vo')))
+        for f in vos: h.update(f.encode()); h.update(open(f, 'rb').read())
+        dig = h.hexdigest()[:32]
+        cpath = os.path.join(lib.BUILD, 'coqchk_cache.json')
+        try: cache = json.load(open(cpath))
+        except Exception: cache = {}
+        if dig not in cache:
+            ok_all, out_all = lib.coq_make(['Props/C%02d.vo' % i for i in range(1, 21)])
+            mods = ' '.join('Jawk.Props.C%02d' % i for i in range(1, 21) if os.path.exists(os.path.join(lib.COQ, 'Props', 'C%02d.vo' % i)))
+            t1 = time.time()
+            rc, chk = lib.sh('cd %s && timeout 5400 coqchk -o -silent -Q . Jawk %s 2>&1 | tail -15' % (lib.COQ, mods), timeout=5500)
+            m = re.search(r'\* Axioms:\s*(.*?)\n\s*\n', chk, re.S)
+            # the digest is taken again: the build above may have produced further .vo files
+            h = hashlib.sha256()
+            for f in sorted(glob.glob(os.path.join(lib.COQ, '*', '*.vo'))): h.update(f.encode()); h.update(open(f, 'rb').read())
+            dig = h.hexdigest()[:32]
+            cache = {dig: {'axioms': (m.group(1).strip() if m else 'coqchk did not finish: ' + chk[-200:]), 'wall_s': round(time.time() - t1), 'modules': mods}}
+            json.dump(cache, open(cpath, 'w'))
+            cov['coqchk_cached'] = False
+        else: cov['coqchk_cached'] = True
+        cov['coqchk_axioms'] = cache[dig]['axioms']; cov['coqchk_wall_s'] = cache[dig]['wall_s']; cov['coqchk_digest_of_vo_files'] = dig
+        if cache[dig]['axioms'] != '<none>': broken.append('coqchk: ' + cov['coqchk_axioms'][:300])
     bad = hygiene()
     if bad: broken.append('hygiene: ' + '; '.join(bad[:5]))
     cov['tables'] = lib.tables_status()      # per table: read in the source / probed from behaviour / not recognised
@@ -147,7 +169,15 @@ def main():
     ok, out = lib.build_harness()
     if not ok:
         log(out); print('harness build failed'); sys.exit(2)
-    if getattr(mod, 'NEEDS_BIN', False):
+    # the demonstrations of the failure classes found so far for this property (seeded/<prop>_*/demo.sh: written from the property
+    # text, each fails on the change it was made for and passes on the repaired tree) run against the real binary on every check
+    import glob
+    demos = []
+    for d in sorted(glob.glob(os.path.join(lib.VERIF, 'seeded', prop + '_*', 'demo.sh'))):
+        try: meta = json.load(open(os.path.join(os.path.dirname(d), 'meta.json')))
+        except Exception: meta = {}
+        if meta.get('demo_arg') != 'worktree': demos.append(d)
+    if getattr(mod, 'NEEDS_BIN', False) or demos:
         ok, out = lib.build_jawk_bin()
         if not ok: log(out); print('jawk build failed'); sys.exit(2)
     ok, out = lib.build_model()
@@ -161,6 +191,9 @@ def main():
     ctx = {'tier': tier, 'rnd': rnd, 'known': [k for k in known['findings'] if k['property'] == prop], 'prop': prop}
     if replay:
         r = json.load(open(replay))
+        if r.get('demo'):
+            rc, out = lib.sh('timeout 300 bash %s %s 2>&1' % (r['demo'], lib.JAWK_BIN), timeout=330)
+            print(json.dumps({'observed': out[-1200:], 'exit': rc, 'fails': rc == 1}, indent=1)); sys.exit(1 if rc == 1 else 0)
         result = mod.replay(ctx, r)
         print(json.dumps(result, indent=1, default=str))
         sys.exit(1 if result.get('fails') else 0)
@@ -169,6 +202,21 @@ def main():
     except Exception:
         traceback.print_exc(); print('check crashed'); sys.exit(2)
     cov.update(result['coverage'])
+    if demos and not replay:
+        import threading
+        dres = {}
+        def rundemo(d):
+            try: dres[d] = lib.sh('timeout 300 bash %s %s 2>&1' % (d, lib.JAWK_BIN), timeout=330)
+            except Exception as e: dres[d] = (124, 'timeout: %s' % e)
+        ths = [threading.Thread(target=rundemo, args=(d,)) for d in demos]
+        for t in ths: t.start()
+        for t in ths: t.join()
+        for d in demos:
+            rc, out = dres[d]
+            if rc == 1:      # 1 = the property is violated on the demo's inputs; other codes = the demo could not run here
+                result.setdefault('violations', []).append({'property': prop, 'relation': 'regression: the demonstration of a failure class found earlier (%s) passes' % os.path.relpath(d, lib.VERIF),
+                                                            'demo': d, 'observed': out[-1200:], 'expected': 'exit 0'})
+        cov['regression_demos'] = len(demos); cov['regression_demos_not_runnable'] = sum(1 for d in demos if dres[d][0] not in (0, 1))
     for v in result.get('violations', []): violations.append(v)
     for b in result.get('broken', []): broken.append(b)
     for k in result.get('known', []): print('KNOWN-FINDING: property=%s %s' % (prop, k))
